@@ -185,21 +185,19 @@ TObserve ==
      IN ndiag' = ndiag + d
   /\ l' = l + 1 /\ UNCHANGED << objs, limit, nunspec >>
 
-\* parse(get_href()) of slot o, with no base and no limit games.  Expected: what the Standard's
-\* parser makes of that href.  For every record obtained by PARSING this is the record itself
-\* (the fixed-point theorem, checked on the model by MC_Parser); for records produced by SETTERS
-\* the Standard has two wrinkles, both behind set_protocol("file") on a special URL -- host
-\* "localhost" and a first path segment "C|" -- found by MC_UrlObject, so the expected value is
-\* computed, not assumed.
+\* parse(get_href()) of slot o, with no base and no limit games ("fp": the object is the result of a
+\* PARSE, no setter was called on it since).
+\*  - fp: C05 itself -- parsing the href again must succeed and give the identical object, whatever the
+\*    object is (the expected value is the OBSERVED object: the property does not depend on the oracle);
+\*  - otherwise: what the Standard's parser makes of that href.  For records produced by SETTERS the
+\*    Standard has two wrinkles, both behind set_protocol("file") on a special URL -- host "localhost"
+\*    and a first path segment "C|" -- found by MC_UrlObject, so the expected value is computed.
+\* (The fixed-point THEOREM about the Standard is checked on the model side, MC_Parser / MC_UrlObject.)
 TReparse ==
   /\ IsEvent("reparse")
   /\ LET old == objs[Ev.o]
-         exp == IF ~old.valid THEN old ELSE ParseObj(Serialize(old.url), FALSE, InvalidObj)
-         \* the theorem, evaluated by the spec on this very record (validates the spec, not ada)
-         thm == IF ~old.valid \/ ~RecordInv(old.url) \/ exp.unspec \/ old.url.scheme = S_file THEN TRUE
-                ELSE exp.valid /\ Canon(exp.url) = Canon(old.url)
+         exp == IF ~old.valid \/ Ev.fp THEN old ELSE ParseObj(Serialize(old.url), FALSE, InvalidObj)
          d == CheckAll(exp, Ev)
-            + (IF thm THEN 0 ELSE IF Emit([l |-> l, who |-> "spec", kind |-> "fixpoint-theorem"]) THEN 1 ELSE 1)
      IN ndiag' = ndiag + d
   /\ l' = l + 1 /\ UNCHANGED << objs, limit, nunspec >>
 
